@@ -351,12 +351,50 @@ pub fn symmetric(r: &mut Rng, n: usize, g: usize, kind: u64) -> B {
     v
 }
 
+/// the extremes of the NARROWER digit / primitive types sitting in a digit of a wider type (0xff, 0x100, 0xffff,
+/// 0x1_0000, 0xffff_ffff, ... as the value of a whole u16 / u32 / u64 digit), other digits zero, all ones or random,
+/// either sign: a constant or a mask of the wrong digit type (`u8::MAX as u32` where `u32::MAX` was meant, a fold
+/// into a narrower accumulator) is right for every digit except these
+pub fn narrow_in_wide(r: &mut Rng, n: usize) -> B {
+    const NB: [u64; 12] = [0x7f, 0x80, 0xff, 0x100, 0x7fff, 0x8000, 0xffff, 0x1_0000, 0x7fff_ffff, 0x8000_0000, 0xffff_ffff, 0x1_0000_0000];
+    let gs: Vec<usize> = [2usize, 4, 8].into_iter().filter(|g| *g <= n).collect();
+    if gs.is_empty() {
+        return random(r, n);
+    }
+    let g = *r.pick(&gs);
+    let mut v = vec![0u8; n];
+    let mut i = 0;
+    while i < n {
+        let len = g.min(n - i);
+        let val: u64 = match r.below(8) {
+            0..=3 => {
+                let cands: Vec<u64> = NB.iter().copied().filter(|x| len >= 8 || *x < (1u64 << (8 * len))).collect();
+                *r.pick(&cands)
+            }
+            4 => 0,
+            5 => u64::MAX,
+            _ => r.next(),
+        };
+        for j in 0..len {
+            v[i + j] = (val >> (8 * j)) as u8;
+        }
+        i += len;
+    }
+    match r.below(3) {
+        0 => v[n - 1] |= 0x80,
+        1 => v[n - 1] &= 0x7f,
+        _ => {}
+    }
+    v
+}
+
 pub fn any(r: &mut Rng, n: usize, bnd: &[B]) -> B {
-    match r.below(11) {
+    match r.below(12) {
         0..=2 => r.pick(bnd).clone(),
         3..=5 => extreme(r, n),
         6..=7 => short(r, n),
         8 => repeated(r, n),
+        9 => narrow_in_wide(r, n),
         _ => random(r, n),
     }
 }
